@@ -18,7 +18,9 @@ RULE = ('histories of 1..10 (quick) / 1..24 (thorough) calls on one SubnetSplitt
         'with prefix chosen relative to the currently free blocks (equal, +1..+3, up to +10, the family width, one shorter '
         'than every free block) and count in {None, 1, 2, 3, 5, 6, 7, max, max+1, 0, -1}; interleaved remove_subnet of a '
         'currently available block. Enumerations are capped at 4096 blocks per call. non-trivial = history in which at '
-        'least one extraction returned blocks')
+        'least one extraction returned blocks. The oracle decides from the previously observed available list which of [] / '
+        'ValueError / blocks each extract call must give (best-fitting free block, count within its 2^(prefix-p) slots) and '
+        'compares the returned list with the first count aligned blocks of a best-fitting block, in order')
 CAP = 12          # log2 of the largest enumeration a call may cause
 
 
